@@ -12,6 +12,7 @@ import (
 	"fmt"
 	"runtime"
 	"strings"
+	"sync"
 )
 
 // Kinds of choice points, as recorded in a trace.
@@ -108,6 +109,11 @@ var S *Sched
 // FreeRunning is set by the race pass: real goroutines, no scheduler.
 var FreeRunning bool
 
+var freeWG sync.WaitGroup
+
+// FreeWait waits for the goroutines spawned through Go in free-running mode.
+func FreeWait() { freeWG.Wait() }
+
 // Active reports whether a controlled execution is running.
 func Active() bool { return S != nil }
 
@@ -196,6 +202,14 @@ func (s *Sched) Run(bodies ...func()) string {
 func Go(name string, fn func()) {
 	s := S
 	if s == nil {
+		if FreeRunning {
+			freeWG.Add(1)
+			go func() {
+				defer freeWG.Done()
+				fn()
+			}()
+			return
+		}
 		// native mode: run inline (set-up and tear-down are sequential and deterministic).
 		fn()
 		return
